@@ -1127,6 +1127,10 @@ pub async fn fork_history_atr(hrng: &mut Rng, gp: u64, case: usize) -> (Sim, Str
                         if let Some(r) = rep3 {
                             fails.extend(r.failures);
                         }
+                        let sup = std::panic::catch_unwind(AssertUnwindSafe(|| big_supply(&a.node))).ok().flatten();
+                        if sup != Some(a.issued) {
+                            fails.push(format!("after block {} (built on the chain the node reorganised onto) the supply is {:?} but {} was issued", a.tip().id, sup, a.issued));
+                        }
                         let blk = a.tip().clone();
                         let sr4 = b.step(ts3, gt3, &[], CreateOutcome::NotCalled, None, Some(blk.clone())).await;
                         if sr4.add != Some(AddClass::OnChain) {
@@ -1144,6 +1148,127 @@ pub async fn fork_history_atr(hrng: &mut Rng, gp: u64, case: usize) -> (Sim, Str
         }
     }
     (b, desc, fails, delivery)
+}
+
+/// A reorganisation attempt at the height whose block sits in slot 0 of the block ring (id a multiple
+/// of 2 * genesis_period, chain longer than the ring): the node has block h; a competing block h' —
+/// the honest competitor plus a signed transaction spending an output that never existed (inputs =
+/// outputs, so every header field stays right) — arrives as a side block, its child h'+1 (built on the
+/// side block by the real Block::create) triggers the reorganisation.  The first block of the new
+/// branch is invalid: the node must refuse, stay on block h, supply and utxo set unchanged.
+pub async fn slot0_reorg_history(hrng: &mut Rng, gp: u64, case: usize) -> (Sim, String, Vec<String>, String) {
+    let nkeys = 4u8;
+    let issuance = gen_issuance(hrng, nkeys, false);
+    let mut a = Sim::new(gp, 8, nkeys, &issuance, 1_000_000).await;
+    let h = 4 * gp; // ring size 2 * gp: block h sits in slot 0 and the ring has wrapped
+    let desc = format!(
+        "{{\"case\":{},\"kind\":\"reorg-at-ring-slot-0\",\"genesis_period\":{},\"fork_height\":{},\"issuance\":{:?}}}",
+        case,
+        gp,
+        h,
+        issuance.iter().map(|(k, a)| vec![*k as u64, *a]).collect::<Vec<_>>()
+    );
+    let mut fails: Vec<String> = vec![];
+    let mut outcome = "not-reached".to_string();
+    let mut competitor: Option<Block> = None;
+    let mut ok = true;
+    while a.tip().id < h {
+        let id = a.tip().id + 1;
+        let ts = a.tip().timestamp + 2 * HEARTBEAT + hrng.below(5000);
+        let spendable = a.spendable();
+        let young: Vec<_> = spendable.iter().filter(|s| s.block_id + 1 >= a.tip().id).cloned().collect();
+        let mut txs = vec![];
+        if !young.is_empty() {
+            let k = hrng.below(young.len() as u64) as usize;
+            txs.push(gen_payment(&a, hrng, &young[k], 2, false, ts));
+        }
+        let with_gt = want_gt(&a, hrng, txs.is_empty());
+        let gt = if with_gt {
+            let parent = a.tip().clone();
+            Some(gt_tx_for(&a.node, &parent, a.keys[1].0, id * 23 + case as u64).await)
+        } else {
+            None
+        };
+        if id == h {
+            // the competitor is produced at the same tip, so that both blocks rebroadcast the same outputs
+            let parent = a.tip().clone();
+            let gtc = gt_tx_for(&a.node, &parent, a.keys[2].0, 977).await;
+            match create_block(&a.node, parent.hash, ts + 7, &[], Some(gtc)).await {
+                Ok(Ok(bc)) => competitor = Some(bc),
+                other => {
+                    fails.push(format!("Block::create failed on valid input: {:?}", other.map(|r| r.map(|b| b.id))));
+                    ok = false;
+                    break;
+                }
+            }
+        }
+        let (co, sr, rep, _m) = atr_checked_step(&mut a, ts, gt, &txs).await;
+        if co != CreateOutcome::Ok || sr.add != Some(AddClass::OnChain) {
+            fails.push(format!("honest block {} was not accepted: create {:?}, add {:?}", id, co, sr.add));
+            ok = false;
+            break;
+        }
+        if let Some(rep) = rep {
+            fails.extend(rep.failures);
+        }
+        let sup = big_supply(&a.node);
+        if sup != Some(a.issued) {
+            fails.push(format!("after block {} the supply is {:?} but {} was issued", id, sup, a.issued));
+        }
+    }
+    if let (true, Some(mut bad)) = (ok, competitor) {
+        const MINT: u64 = 777_000_000;
+        let mut input = Slip::default();
+        input.public_key = a.keys[3].0;
+        input.amount = MINT;
+        input.block_id = h - 1;
+        input.tx_ordinal = 0;
+        input.slip_index = 9;
+        let mut forged = raw_tx(TransactionType::Normal, vec![input], vec![slip_out(a.keys[3].0, MINT, SlipType::Normal)], &a.keys[3].1, bad.timestamp);
+        forged.generate(&a.node.pk, 0, 0);
+        bad.transactions.insert(1, forged);
+        reseal(&mut bad, &a.keys[0].1);
+        let before_supply = big_supply(&a.node);
+        let mut ia = Interner::default();
+        let before_utxo = window_utxo(&a.node, &mut ia);
+        let tip_hash = a.tip().hash;
+        let r1 = futures_catch(AssertUnwindSafe(a.node.add_block(bad.clone()))).await;
+        let child = match create_block(&a.node, bad.hash, bad.timestamp + 2 * HEARTBEAT + 900, &[], None).await {
+            Ok(Ok(c)) => Some(c),
+            _ => {
+                let gt = gt_tx_for(&a.node, &bad, a.keys[2].0, 978).await;
+                create_block(&a.node, bad.hash, bad.timestamp + 2 * HEARTBEAT + 900, &[], Some(gt)).await.ok().and_then(|r| r.ok())
+            }
+        };
+        match child {
+            Some(c) => {
+                let r2 = futures_catch(AssertUnwindSafe(a.node.add_block(c))).await;
+                outcome = format!("{:?}/{:?}", r1.clone().map(|c| c.code()), r2.clone().map(|c| c.code()));
+                if r1 != Ok(AddClass::OffChain) {
+                    fails.push(format!("the competing block {} was not stored as a side block: {:?}", h, r1));
+                }
+                match r2 {
+                    Ok(AddClass::Invalid) => {}
+                    other => fails.push(format!("the child of a competing block {} that spends a non-existent output of 777_000_000 is not refused: {:?}", h, other)),
+                }
+                let sa = std::panic::catch_unwind(AssertUnwindSafe(|| big_supply(&a.node))).ok().flatten();
+                if sa != before_supply {
+                    fails.push(format!("after the refused reorganisation at block {} (ring slot 0) the supply is {:?}, before it was {:?} (issued {})", h, sa, before_supply, a.issued));
+                }
+                if a.node.blockchain.get_latest_block_hash() != tip_hash {
+                    fails.push(format!("after the refused reorganisation the tip is block {} {}, not the block {} it had", a.node.blockchain.get_latest_block_id(), if a.node.blockchain.get_latest_block_id() == h { "(another one)" } else { "" }, h));
+                }
+                let mut ia2 = Interner::default();
+                if std::panic::catch_unwind(AssertUnwindSafe(|| window_utxo(&a.node, &mut ia2))).ok() != Some(before_utxo) {
+                    fails.push("after the refused reorganisation the in-window utxo set differs from the one before it".to_string());
+                }
+            }
+            None => fails.push("coverage: the child of the competing side block could not be built".to_string()),
+        }
+    } else if ok {
+        fails.push("coverage: the competing block was not built".to_string());
+    }
+    (a, desc, fails, outcome)
 }
 
 /// spendable entries older than the window (they can no longer be rebroadcast)
